@@ -1047,11 +1047,11 @@ def run_build_determinism(case, ob, site):
         else:
             texts.setdefault(p.result, ('strings', 'reversed'))
     BRanked.sym_rank, BRanked.memo = {}, {}
-    # the interpreter's string-hash seed is part of the environment as well: hash() as seen by PyRTL's modules is replaced by a
-    # salted one (two salts besides the process's own) and the text must not move
+    # the interpreter's string-hash seed is part of the environment as well: the design is built and exported with hash() as
+    # seen by PyRTL's modules replaced by a salted one (two salts besides the process's own)
     import builtins
     import importlib
-    hmods = [importlib.import_module('pyrtl.' + m) for m in EMIT_MODULES + ['core', 'wire', 'helperfuncs', 'memory']]
+    hmods = [importlib.import_module('pyrtl.' + m) for m in dict.fromkeys(EMIT_MODULES + PASS_MODULES + ['conditional', 'corecircuits'])]
     for salt in (0x5bd1e995, 0x9e3779b97f4a7c15):
         def salted(o, salt=salt):
             h = builtins.hash(o)
@@ -1059,11 +1059,10 @@ def run_build_determinism(case, ob, site):
         for m in hmods:
             m.__dict__['hash'] = salted
         try:
-            b, tr = fresh() if kind == 'firrtl' else (block, trace)
-            texts.add(emit(kind, b, tr))
+            texts.setdefault(build_then(case), ('hash', hex(salt)))
             npaths += 1
         except Exception as e:
-            ob.fact('emitter-accepts-design', False, site + ':raises', detail=repr(e))
+            ob.fact('design-builds-and-exports-under-every-order', False, site + ':raises', detail=repr(e))
         finally:
             for m in hmods:
                 m.__dict__.pop('hash', None)
